@@ -92,6 +92,19 @@ def _parse_ann(a: ast.AST) -> ast.AST:
     return a
 
 
+class _Sentinel:
+    """a module-level `object()`: equal and identical only to itself"""
+
+    def __init__(self, name: str):
+        self.name = name
+
+    def __repr__(self) -> str:
+        return f"<sentinel {self.name}>"
+
+
+_SENTINELS: Dict[str, "_Sentinel"] = {}
+
+
 class FmtModel:
     def __init__(self, types: Module):
         self.m = types
@@ -323,6 +336,15 @@ class FmtModel:
         if isinstance(e, ast.Name):
             if e.id in env:
                 return env[e.id]
+            # a module-level name bound once to a constant or to a fresh `object()` (a sentinel compared with `is`)
+            binds = [st for st in self.m.tree.body if isinstance(st, (ast.Assign, ast.AnnAssign)) and getattr(st, "value", None) is not None
+                     and any(isinstance(t, ast.Name) and t.id == e.id for t in (st.targets if isinstance(st, ast.Assign) else [st.target]))]
+            if len(binds) == 1:
+                v = binds[0].value
+                if isinstance(v, ast.Constant):
+                    return v.value
+                if isinstance(v, ast.Call) and isinstance(v.func, ast.Name) and v.func.id == "object" and not v.args and not v.keywords:
+                    return _SENTINELS.setdefault(e.id, _Sentinel(e.id))
             raise AnalysisError(f"unbound name {e.id} in a format method")
         if isinstance(e, ast.Attribute):
             base = self._ev(e.value, env)
@@ -362,7 +384,24 @@ class FmtModel:
         if isinstance(e, ast.UnaryOp) and isinstance(e.op, ast.Not):
             return not self._truth(self._ev(e.operand, env))
         if isinstance(e, ast.BinOp) and isinstance(e.op, ast.Add):
-            return self._str(self._ev(e.left, env)) + self._str(self._ev(e.right, env))
+            l_, r_ = self._ev(e.left, env), self._ev(e.right, env)
+            if isinstance(l_, list) and isinstance(r_, list):
+                return l_ + r_
+            return self._str(l_) + self._str(r_)
+        if isinstance(e, ast.BinOp) and isinstance(e.op, ast.Mod):
+            # "<%s>" % x  /  "%s %s" % (a, b): only the %s conversion (and %%) on a constant-shaped format string
+            fmt = self._ev(e.left, env)
+            if isinstance(fmt, str):
+                vals = [self._ev(x, env) for x in e.right.elts] if isinstance(e.right, ast.Tuple) else [self._ev(e.right, env)]
+                pieces = fmt.replace("%%", "\x00").split("%s")
+                if len(pieces) == len(vals) + 1 and not any("%" in p_ for p_ in pieces):
+                    out_ = pieces[0]
+                    for v_, p_ in zip(vals, pieces[1:]):
+                        out_ += self._str(v_) + p_
+                    return out_.replace("\x00", "%")
+            raise AnalysisError(f"expression shape not modelled in a format method: {norm(e)[:70]}")
+        if isinstance(e, ast.Tuple):
+            return tuple(self._ev(x, env) for x in e.elts)
         if isinstance(e, ast.Compare) and len(e.ops) == 1:
             l, r = self._ev(e.left, env), self._ev(e.comparators[0], env)
             if isinstance(e.ops[0], ast.Is):
